@@ -202,6 +202,26 @@ def gen(repo):
     b = fn_body(rh, "repair_hotcold_packs")
     if not re.search(r"correct_missing_files\s*\(\s*repo\s*,\s*FileType::Pack\s*,\s*\|id\|\s*tree_packs\.contains\(&PackId::from\(\*id\)\)\s*,\s*dry_run\s*,?\s*\)", b):
         raise ExtractError("repair_hotcold_packs: call of correct_missing_files not recognised")
+    # get_tree_packs: which index sections are read, which blob type is kept
+    g = " ".join(fn_body(rh, "get_tree_packs").split())
+    m = re.search(r"for (\(pack, _\)|pack) in index\.(all_packs\(\)|packs|packs_to_delete) \{ let blob_type = pack\.blob_type\(\); if blob_type == BlobType::(\w+) \{ _ = tree_packs\.insert\(pack\.id\); \} \}", g)
+    if not m or "repo.dbe().stream_all::<IndexFile>(&p)?" not in g:
+        raise ExtractError("get_tree_packs: loop over the index packs not recognised")
+    if m.group(2) == "all_packs()":
+        ix = read(repo, "crates/core/src/repofile/indexfile.rs")
+        ap = " ".join(fn_body(ix, "all_packs").split())
+        secs = list(dict.fromkeys(re.findall(r"self\s*\.\s*(packs_to_delete|packs)\b", ap)))
+        if not secs:
+            raise ExtractError("IndexFile::all_packs: sections not recognised")
+    else:
+        secs = [m.group(2)]
+    secname = {"packs": "SecPacks", "packs_to_delete": "SecPacksToDelete"}
+    out.append("(* get_tree_packs: index sections it reads, blob type it keeps *)")
+    out.append("Definition tree_pack_sections : list index_section := [%s]." % "; ".join(secname[x] for x in secs))
+    if m.group(3) not in ("Tree", "Data"):
+        raise ExtractError("get_tree_packs: unknown blob type " + m.group(3))
+    out.append("Definition tree_pack_blob : blob_type := %s." % m.group(3))
+    meta["tree_pack_sections"] = secs
     b = fn_body(rh, "correct_missing_files")
     if not re.search(r"let\s*\(\s*missing_hot\s*,\s*missing_hot_size\s*,\s*missing_cold\s*,\s*missing_cold_size\s*\)\s*=\s*get_missing_files\s*\(\s*repo\s*,\s*file_type\s*,\s*is_relevant\s*\)\s*\?", b):
         raise ExtractError("correct_missing_files: destructuring of get_missing_files not recognised")
